@@ -27,6 +27,25 @@ use crate::padfield::Pad;
 type H96 = Blake3_192<f64::BaseElement>;
 type H128 = Blake3_256<f64::BaseElement>;
 type H124 = Rp62_248;
+/// a hasher with a 128-bit security level halved twice over: collision resistance 64 (what a custom
+/// `Hasher` with a 128-bit digest announces); hashing itself is delegated and irrelevant here
+pub struct H64;
+impl winter_crypto::Hasher for H64 {
+    type Digest = <H128 as winter_crypto::Hasher>::Digest;
+    const COLLISION_RESISTANCE: u32 = 64;
+    fn hash(bytes: &[u8]) -> Self::Digest {
+        <H128 as winter_crypto::Hasher>::hash(bytes)
+    }
+    fn merge(values: &[Self::Digest; 2]) -> Self::Digest {
+        <H128 as winter_crypto::Hasher>::merge(values)
+    }
+    fn merge_many(values: &[Self::Digest]) -> Self::Digest {
+        <H128 as winter_crypto::Hasher>::merge_many(values)
+    }
+    fn merge_with_int(seed: Self::Digest, value: u64) -> Self::Digest {
+        <H128 as winter_crypto::Hasher>::merge_with_int(seed, value)
+    }
+}
 
 fn us(v: &Value) -> usize {
     v.as_u64().unwrap_or(0) as usize
@@ -99,6 +118,10 @@ fn context(f: &FieldSpec, ti: TraceInfo, options: ProofOptions, nc: usize) -> Co
 macro_rules! with_hasher {
     ($cr:expr, $h:ident => $body:expr) => {
         match $cr {
+            64 => {
+                type $h = H64;
+                $body
+            },
             96 => {
                 type $h = H96;
                 $body
